@@ -50,7 +50,7 @@ class set_operators_build_compounds:
     }
 
 
-@contract(COMPOUND, props=['C08', 'C17', 'C16'])
+@contract(COMPOUND, props=['C08', 'C17', 'C16', 'C01'])
 class compound_constructor:
     cases = {'ok': {'what': 'ok'}, 'operand_not_region': {'what': 'operand_not_region'}, 'operator_not_callable': {'what': 'operator_not_callable'},
              'sky_operand': {'what': 'sky_operand'}, 'empty_meta': {'what': 'empty_meta'}, 'default_meta': {'what': 'default_meta'}}
